@@ -28,8 +28,8 @@ SQ2 = math.sqrt(2)
 
 
 def models(tier, seed):
-    n = 8000 if tier == 'quick' else 60000
-    return [dict(module='MC_C13.tla', cfg='MC_C14_sim.cfg', simulate='num=100000000', depth=9, seed=seed, max_cases=n, workers=6, batch=20)]
+    n = 2500 if tier == 'quick' else 30000
+    return [dict(module='MC_C13.tla', cfg='MC_C14_sim.cfg', simulate='num=100000000', depth=9, seed=seed, max_cases=n, shards=12, batch=20)]
 
 
 def required_tags(tier):
@@ -112,11 +112,15 @@ def replay(case, ctx):
     ref = case['ref']
     # nodes that can be asked for by name: labelled classes and the ground
     node_names = {}
+    per_class = {}
     for pair in (case['labels'].values() if isinstance(case['labels'], dict) else case['labels']):
-        node_names.setdefault(pair[1], label_names[pair[0]])
-    if case['gnd'] >= 0:
+        per_class.setdefault(pair[1], []).append(label_names[pair[0]])
+    for cls, nms in per_class.items():
+        if len(nms) == 1 and cls != case['gnd']:       # a node carrying two different names is contradictory: not asked for
+            node_names[cls] = nms[0]
+    if case['gnd'] >= 0 and case['gnd'] not in per_class:
         node_names[case['gnd']] = gnd_name
-    ambiguous = len(set(node_names.values())) != len(node_names) or (case['gnd'] >= 0 and any(p[1] == case['gnd'] for p in (case['labels'].values() if isinstance(case['labels'], dict) else case['labels'])))
+    ambiguous = False
     p = [2, 3, 4][h % 3]
     kinds = []
     if dc['ok']:
